@@ -1,5 +1,5 @@
 (* Props/C13.v -- C13: fingerprints and key ids are the RFC-defined hashes. *)
-From Rpgp Require Import Base.Octets Base.Res Sig.Preimage Sig.PreimageProofs Sig.Fingerprint.
+From Rpgp Require Import Base.Octets Base.Res Sig.Preimage Sig.PreimageProofs Sig.Fingerprint Rules.Identity Rules.IdentityProofs.
 
 (* the fingerprint pre-image is a function of the public key packet body only
    (the same for the secret key, its public half and any re-parsed copy that
@@ -32,6 +32,32 @@ Theorem C13_keyid_v3_len : forall n, lenN (keyid_v3 n) = 8.
 Proof. exact keyid_v3_len. Qed.
 Print Assumptions C13_keyid_v3_len.
 
+(* the lookup side (Signature::match_identity, PKESK::match_identity): exactly which keys a signature names *)
+Theorem C13_signature_names_exactly :
+  forall kids fps kid fp,
+    sig_match kids fps kid fp = true <-> (kids = [] /\ fps = []) \/ In kid kids \/ In fp fps.
+Proof. exact sig_match_exact. Qed.
+Print Assumptions C13_signature_names_exactly.
+(* what the library embeds (the issuing key's own key id / fingerprint, C13 harness "embedded" and "issuing") is found again *)
+Theorem C13_embedded_issuer_is_found :
+  forall kids fps kid fp, In kid kids \/ In fp fps -> sig_match kids fps kid fp = true.
+Proof. intros kids fps kid fp [H|H]; [apply sig_match_own_kid|apply sig_match_own_fp]; exact H. Qed.
+Print Assumptions C13_embedded_issuer_is_found.
+Theorem C13_foreign_issuer_is_not_matched :
+  forall kids fps kid fp, (kids <> [] \/ fps <> []) -> ~ In kid kids -> ~ In fp fps -> sig_match kids fps kid fp = false.
+Proof. exact sig_match_foreign. Qed.
+Print Assumptions C13_foreign_issuer_is_not_matched.
+(* PKESK: the recipient field written for a key is matched to it; a named packet to no key with another id / fingerprint *)
+Theorem C13_esk_names_recipient :
+  forall kid fp, esk_match (TKeyId kid) kid fp = true /\ esk_match (TFp (Some fp)) kid fp = true /\
+                 esk_match (TKeyId (repeat x00 8)) kid fp = true /\ esk_match (TFp None) kid fp = true.
+Proof. intros kid fp. repeat split; [apply esk_match_own_kid|apply esk_match_own_fp]. Qed.
+Print Assumptions C13_esk_names_recipient.
+Theorem C13_esk_names_nobody_else :
+  forall id f kid fp, (is_wildcard id = false -> id <> kid -> esk_match (TKeyId id) kid fp = false) /\
+                      (f <> fp -> esk_match (TFp (Some f)) kid fp = false).
+Proof. intros id f kid fp. split; [apply esk_match_foreign_kid|apply esk_match_foreign_fp]. Qed.
+Print Assumptions C13_esk_names_nobody_else.
 Example C13_ex :
   keyid 4 (repeat x01 12 ++ repeat x02 8) = repeat x02 8 /\ keyid 6 (repeat x03 8 ++ repeat x04 24) = repeat x03 8
   /\ keyid_v3 [x05; x06] = repeat x00 6 ++ [x05; x06].
